@@ -68,7 +68,10 @@ def runner(sc):
                 else:
                     r = ms.respond(True, [], 0xFFFF, 0xFF)
                 res.served.append(dict(ev='respond-returned', t=sim.now, data=(list(r) if r is not None else None), op=opi['i']))
-            sim.at_thread(sim.now + op.get('server_think', 2000), lambda: guarded(app), 'server-app')
+            if op.get('respond_inline') and op['kind'] == 'read' and op.get('respond_false') is None:
+                guarded(app)         # the serving application answers a read from inside the notification itself
+            else:
+                sim.at_thread(sim.now + op.get('server_think', 2000), lambda: guarded(app), 'server-app')
 
         def guarded(fn):
             try:
